@@ -255,8 +255,10 @@ def _call(case, x, vmin, vmax):
         x64 = np.atleast_1d(x).astype("f8")
         if hm.in_limits(x64, x64.min() if kw2["min"] is None else kw2["min"],
                         x64.max() if kw2["max"] is None else kw2["max"]).any():
-            d2 = hm.derive(x64, kw2.get("binsize"), kw2.get("nbin"), kw2["min"], kw2["max"])
-            if max(d2["nbin_alt"]) > 20000:
+            lo2 = x64.min() if kw2["min"] is None else kw2["min"]
+            hi2 = x64.max() if kw2["max"] is None else kw2["max"]
+            est = (hi2 - lo2) / kw2["binsize"] if kw2.get("binsize") else kw2.get("nbin", 1)
+            if not est < 20000:
                 continue        # dropping a limit can blow the bin count up; such calls are not made
         r2 = sut(b.dohist, rev=True, **kw2)
         fresh = es.Binner(_layout(case["container"], x))
